@@ -83,6 +83,10 @@ func (g *dgen) validation(kind string, loc Loc) *spec.Validation {
 		case 2:
 			v.Pattern = designPatterns[t.Draw("pattern", len(designPatterns))]
 			g.feat("val:pattern")
+			if loc == LocBody && t.Draw("body-pattern", 4) == 0 {
+				v.Pattern = bodyPatterns[t.Draw("which-body-pattern", len(bodyPatterns))]
+				g.feat("val:pattern-with-cr")
+			}
 		case 3:
 			// "hostname" is left out: goa's hostname validator is known to be wrong
 			// in both directions (C17 known finding) and would only add noise here
